@@ -1870,7 +1870,20 @@ pub fn run_case(case: &Case, stats: &mut Stats) -> RunReport {
                                 stats.bump("probe.R2_with_invalid_variable");
                             }
                             stats.state(&["R2", &wrappers, if inv { "invalid" } else { "valid" }, first.outcome.class()]);
-                            if !same_modulo_help(&without, &first) {
+                            // two failures need not carry the same text when the item sits in
+                            // a wrapped group or next to an adjacent group: a group that failed
+                            // leaves a narrowed scope behind, and what the rest of a doomed run
+                            // then sees (and complains about) is not the line
+                            let has_adjacent = l.ix.iter().any(|m| m.group.is_some());
+                            let same = if in_plain_group || has_adjacent {
+                                match (&without.outcome, &first.outcome) {
+                                    (Outcome::Stderr(_), Outcome::Stderr(_)) => true,
+                                    _ => same_modulo_help(&without, &first),
+                                }
+                            } else {
+                                same_modulo_help(&without, &first)
+                            };
+                            if !same {
                                 violation!(
                                     "R2",
                                     opi,
